@@ -148,6 +148,15 @@ def dropRootAttrs : Px.Xml → Px.Xml
   | x => x
 
 mutual
+/-- some node below has exactly one child -/
+def anySingle : T → Bool
+  | .node _ _ k => anySingleL k
+def anySingleL : Kids → Bool
+  | [] => false
+  | (_, t) :: r => t.kids.length == 1 || anySingle t || anySingleL r
+end
+
+mutual
 def anyMultif : T → Bool
   | .node _ _ k => k.length > 2 && false || anyMultifL k
 def anyMultifL : Kids → Bool
@@ -162,7 +171,8 @@ def treeTags (ts : List T) : List String :=
   tagIf (edges.any (·.len == 0)) "zerolen" ++ tagIf (edges.any (·.len == NIL)) "nolen" ++
   tagIf (edges.any fun e => e.len != NIL && e.len != 0) "haslen" ++
   tagIf (edges.any (·.sup != NIL)) "hassup" ++ tagIf (ts.any fun t => t.name != "") "rootname" ++
-  tagIf (ts.any fun t => t.kids.any fun et => et.2.isLeaf) "tipatroot"
+  tagIf (ts.any fun t => t.kids.any fun et => et.2.isLeaf) "tipatroot" ++
+  tagIf (ts.any fun t => t.kids.length == 1) "tiproot"
 
 /-- hypothesis of `first_eq_head` for Newick: the first tree is on its own lines and the line breaks
     inside it come right after a delimiter (see Spec) -/
@@ -325,6 +335,123 @@ def handle (op : String) (f : List String) : Verdict :=
         ⟨.oracle, tags, "first-tree reader differs from the head of the multi-tree reader"⟩
       else tieReaders (.nextstrain nd) mrecs first tags
     | _, _, _ => bad "C13.ns fields"
+  | "foreign", [flagsS, dumps, text, mrecsS, firstS] =>
+    match (splitTerm "|" dumps).mapM T.undump, unescape text, parseRecs mrecsS with
+    | some ts, some textS, some mrecs =>
+      let first : Option Out := parseFirst firstS
+      if first.isNone && !firstS.startsWith "panic" then bad "C13.foreign first" else
+      let flags := (flagsS.splitOn ",").filter (· != "")
+      -- a form the reader is not expected to accept (`tree * name`): correspondence only
+      let outside := flags.contains "star"
+      let wf := WF13list ts
+      let hyp := wf && sameTaxa ts && !outside
+      let tags := ["foreign-nexus"] ++ flags ++ tagIf wf "wf13" ++ tagIf hyp "hyp" ++ tagIf (ts.length ≥ 2) "nontrivial" ++
+        treeTags ts
+      if firstS.startsWith "panic" || mrecsS.startsWith "panic" then ⟨.oracle, tags, "panic: " ++ firstS⟩
+      else if hyp && !(recsAre ts mrecs 0) then
+        let f60 := isF60 (flags.any fun f => f.startsWith "translate-") ts mrecs
+        ⟨.oracle, tagIf f60 "f60-region" ++ tags, (if f60 then "class=NexusTranslateDuplicateNodeNames " else "") ++
+          "legal Nexus document: the trees read differ from the trees it holds, or a tree is missing"⟩
+      else if !(firstIsHead (first.getD .err) mrecs) then
+        ⟨.oracle, tags, "first-tree reader differs from the head of the multi-tree reader"⟩
+      else tieReaders (.nexus textS.toList) mrecs first tags
+    | _, _, _ => bad "C13.foreign fields"
+  | "foreignpx", [flagsS, dumps, _text, xml, mrecsS, firstS] =>
+    match (splitTerm "|" dumps).mapM T.undump, parseXmlDoc xml, parseRecs mrecsS with
+    | some ts, some xdoc, some mrecs =>
+      let first : Option Out := parseFirst firstS
+      if first.isNone && !firstS.startsWith "panic" then bad "C13.foreignpx first" else
+      let flags := (flagsS.splitOn ",").filter (· != "")
+      -- `branch_length` given as an ATTRIBUTE of <clade> (legal PhyloXML) is not read by gotree: the lengths
+      -- are lost; correspondence only for those documents
+      let lossy := flags.contains "attr-length"
+      let wf := WF13list ts
+      let hyp := wf && !lossy
+      let tags := ["foreign-phyloxml"] ++ flags ++ tagIf wf "wf13" ++ tagIf hyp "hyp" ++ tagIf (ts.length ≥ 2) "nontrivial" ++
+        treeTags ts
+      if firstS.startsWith "panic" || mrecsS.startsWith "panic" then ⟨.oracle, tags, "panic: " ++ firstS⟩
+      else if hyp && !(recsAre ts mrecs 0) then
+        ⟨.oracle, tags, "legal PhyloXML document: the trees read differ from the trees it holds"⟩
+      else if !(firstIsHead (first.getD .err) mrecs) then
+        ⟨.oracle, tags, "first-tree reader differs from the head of the multi-tree reader"⟩
+      else tieReaders (.phyloxml xdoc) mrecs first tags
+    | _, _, _ => bad "C13.foreignpx fields"
+  | "reformat", [infmt, outfmt, trS, omode, brS, dumps, intext, aux, exit, outtext, _outx, mrecsS] =>
+    match (splitTerm "|" dumps).mapM T.undump, unescape intext, unescape outtext, parseRecs mrecsS with
+    | some ts, some inS, some outS, some mrecs =>
+      let translate := trS == "1"
+      let broken := brS == "1"
+      let doc? : Option Doc := match infmt with
+        | "newick" => some (.newick inS.toList)
+        | "nexus" | "nexustr" => some (.nexus inS.toList)
+        | "phyloxml" => (parseXmlDoc aux).map Doc.phyloxml
+        | "nextstrain" => (parseNs aux).map Doc.nextstrain
+        | _ => none
+      match doc? with
+      | none => bad "C13.reformat input"
+      | some doc =>
+      let nexusInvolved := outfmt == "nexus" || infmt == "nexus" || infmt == "nexustr"
+      let trInvolved := translate || infmt == "nexustr"
+      let wf := WF13list ts
+      let hyp := wf && !broken && (!nexusInvolved || sameTaxa ts)
+      let dupNames := ts.any fun t => !innerNamesDistinct t
+      let f60 := trInvolved && ts.all tipsOK && sameTaxa ts && ts.all nonTipNamesNotNumeral && dupNames &&
+        (exit == "fail" || isF60 true ts mrecs)
+      let tags := ["reformat", "in-" ++ infmt, "out-" ++ outfmt, "o-" ++ omode] ++ tagIf translate "translate" ++
+        tagIf broken "broken-input" ++ tagIf wf "wf13" ++ tagIf hyp "hyp" ++ tagIf (ts.length ≥ 2) "nontrivial" ++
+        tagIf f60 "f60-region" ++ treeTags ts
+      let cls := if f60 then "class=NexusTranslateDuplicateNodeNames " else ""
+      if outS.startsWith "STDOUT-NOT-EMPTY:" then ⟨.oracle, tags, "reformat -o: output also went to stdout"⟩
+      else if exit == "timeout" || mrecsS.startsWith "panic" then ⟨.oracle, tags, "reformat: timeout / panic"⟩
+      else if broken && exit != "fail" then ⟨.oracle, tags, "reformat: a broken input tree is not reported (exit 0)"⟩
+      else if hyp && exit != "ok" then ⟨.oracle, tags, cls ++ "reformat fails on well-formed trees"⟩
+      else if hyp && !(recsAre ts mrecs 0) then
+        ⟨.oracle, tags, cls ++ "reformat: the output read back differs from the input trees, or a tree is missing"⟩
+      else if hyp && outfmt == "nexus" && exit == "ok" && hasTranslate outS.toList != translate then
+        ⟨.oracle, tags, "reformat nexus: a TRANSLATE table is written iff --translate is given"⟩
+      else
+        -- the glue as a function of the flags: read everything, stop at the first error record
+        match readMulti env doc with
+        | none => ⟨.pass, "model-unsupported" :: tags, ""⟩
+        | some recs =>
+          let good := (recs.takeWhile (·.out.isOk)).filterMap fun r => match r.out with | .ok t => some (r.id, t) | .err => none
+          let ofmt : OutFmt := match outfmt with | "newick" => .newick | "nexus" => .nexus | _ => .phyloxml
+          let (mok, mout) := reformatGlue env ofmt translate recs
+          let mexit := if mok then "ok" else "fail"
+          let tags := tagIf (mout == outS.toList) "out-eq" ++ tags
+          if mexit != exit then ⟨.tie, tags, "model of the reformat glue: exit " ++ mexit⟩
+          else if outfmt == "newick" && !(recsAre (good.map (·.2)) mrecs 0) then
+            ⟨.tie, tags, "model of the reformat glue: trees written before the error"⟩
+          else ⟨.pass, tags, ""⟩
+    | _, _, _, _ => bad "C13.reformat fields"
+  | "clifirst", [infmt, dumps, _text, _aux, exit, rowsS] =>
+    match (splitTerm "|" dumps).mapM T.undump with
+    | some ts =>
+      let rows := (rowsS.splitOn "|").filter (· != "")
+      let isNexus := infmt == "nexus" || infmt == "nexustr"
+      let wf := WF13list ts
+      -- `compare edges` needs all trees on the same tips; it matches branches by bipartition, which is
+      -- ambiguous for the two root branches of a rooted tree and around single-child nodes
+      let hyp := wf && sameTaxa ts
+      let unambiguous := match ts with | t :: _ => !t.rooted && !anySingle t && t.kids.length != 1 | [] => false
+      let dupNames := ts.any fun t => !innerNamesDistinct t
+      let f60 := infmt == "nexustr" && ts.all tipsOK && sameTaxa ts && ts.all nonTipNamesNotNumeral && dupNames && exit == "fail"
+      let tags := ["clifirst", "in-" ++ infmt] ++ tagIf hyp "hyp" ++ tagIf (hyp && unambiguous) "hyp-values" ++
+        tagIf (ts.length ≥ 2) "nontrivial" ++ tagIf f60 "f60-region"
+      let rowOK (r : String) : Bool := match r.splitOn ";" with
+        | [l, s, found, cl, cs] => found == "true" && l == cl && s == cs
+        | _ => false
+      let nedges := match ts with | t :: _ => t.edges.length | [] => 0
+      if exit == "timeout" then ⟨.oracle, tags, "compare edges: timeout"⟩
+      else if hyp && exit != "ok" then
+        ⟨.oracle, tags, (if f60 then "class=NexusTranslateDuplicateNodeNames " else "") ++ "single-tree reader (CLI) fails on a well-formed file"⟩
+      else if hyp && !(rows.all fun r => (r.splitOn ";").getD 2 "" == "true") then
+        ⟨.oracle, tags, "CLI: a branch of the single-tree reader's tree is not in the first tree of the multi-tree reader"⟩
+      else if hyp && unambiguous && !(rows.all rowOK) then
+        ⟨.oracle, tags, "CLI: the tree of the single-tree reader differs from the first tree of the multi-tree reader"⟩
+      else if hyp && rows.length != nedges then ⟨.tie, tags, "CLI: number of branches of the first tree"⟩
+      else ⟨.pass, tags, ""⟩
+    | none => bad "C13.clifirst fields"
   | _, _ => bad ("C13: unknown op " ++ op)
 
 end Gotree.Driver.C13
